@@ -41,7 +41,8 @@ def main(tier, replay, t0):
             if not camp.module_ok(c.id, x["id"]):
                 bad = [d for d in probes.unexpected_rejection(camp, c.id, x["id"])
                        if any(k in (d.get("rendered") or d.get("message") or "") for k in
-                              ("OverrideConstants", "constants", "overrides"))]
+                              ("OverrideConstants", "constants", "overrides", "as f64",
+                               "entries.insert")) or d.get("code") == "E0606"]
                 if bad:
                     viol.append(Violation("override-code-does-not-compile", bad[0].get("code")
                                           or "?", "generated override handling is rejected by "
